@@ -92,6 +92,104 @@ Section TR.
       change (span_ident (c_lp :: r)) with (@nil N, c_lp :: r). cbv beta iota zeta. rewrite lk_13. cbn [run_basic]. rewrite E. reflexivity.
   Qed.
 
+  (* ---- f-strings: a literal part without braces, then a replacement field ---- *)
+  Lemma plain_no_named l : forallb plain_char l = true -> starts_with [c_lbrace; c_N; c_bslash] (c_lbrace :: l) = false.
+  Proof.
+    intros H. destruct (starts_with [c_lbrace; c_N; c_bslash] (c_lbrace :: l)) eqn:E; [|reflexivity].
+    apply starts_with_spec in E as [r Hr]. inversion Hr; subst. vm_compute in H. discriminate H.
+  Qed.
+  Lemma plain_step c : plain_char c = true ->
+    closing_step (ClQuote false false false) c = CsCont (ClQuote false false false) /\ (c =? c_lbrace) = false /\ (c =? c_rbrace) = false.
+  Proof.
+    unfold plain_char. intros H. apply negb_true_iff in H. apply orb_false_elim in H as [H H4]. apply orb_false_elim in H as [H H3].
+    apply orb_false_elim in H as [H1 H2]. unfold closing_step. rewrite H3, H4. simpl. auto.
+  Qed.
+  Lemma scan_plain : forall lit acc r, forallb plain_char lit = true -> forallb plain_char acc = true ->
+    match r with d :: _ => d =? c_lbrace | [] => false end = false ->
+    scan true false (ClQuote false false false) false acc (lit ++ c_lbrace :: r) = ScField (rev acc ++ lit) (ClQuote false false false) r.
+  Proof.
+    induction lit as [|c lit IH]; intros acc r Hl Ha Hr.
+    - cbn [app scan]. change (closing_step (ClQuote false false false) c_lbrace) with (CsCont (ClQuote false false false)).
+      cbv iota. change (c_lbrace =? c_lbrace) with true. cbv iota. change (negb false) with true.
+      rewrite (plain_no_named acc Ha). cbn [andb]. rewrite app_nil_r.
+      destruct r as [|d q]; [reflexivity|]. rewrite Hr. reflexivity.
+    - simpl in Hl. apply andb_prop in Hl as [Hc Hl]. destruct (plain_step c Hc) as [S1 [S2 S3]].
+      cbn [app scan]. rewrite S1, S2, S3. rewrite (IH (c :: acc) r Hl); [|simpl; rewrite Hc; exact Ha|exact Hr].
+      simpl. rewrite <- app_assoc. reflexivity.
+  Qed.
+
+  Lemma lk_f : lookup [c_f] reader_table = None.
+  Proof. reflexivity. Qed.
+  Lemma try_fstring_prem f r2 :
+    rd orc f (MParts (ClQuote false false false) false false (length r2) []) r2 = RPrem ->
+    rd orc (S f) MTry (fopen ++ r2) = RPrem.
+  Proof.
+    intros E. cbn [rd]. unfold try_body. cbn [fopen app].
+    change (slurp (c_f :: c_dq :: r2)) with (c_f :: c_dq :: r2). cbv beta iota. rewrite lk_f.
+    unfold read_default. change (span_ident (c_dq :: r2)) with (@nil N, c_dq :: r2). cbv beta iota zeta.
+    change (c_dq =? c_dq) with true. cbv iota. unfold string_lit.
+    change (negb (prefix_ok [c_f])) with false. cbv iota.
+    change (mem c_f [c_f] || mem c_t [c_f]) with true. cbv iota.
+    change (mem c_r [c_f]) with false. change (mem c_b [c_f]) with false. change (negb (mem c_f [c_f])) with false.
+    rewrite E. reflexivity.
+  Qed.
+  Lemma parts_field_prem f lit r :
+    forallb plain_char lit = true -> match r with d :: _ => d =? c_lbrace | [] => false end = false ->
+    match decode orc false (norm_nl false lit) with Some _ => true | None => false end = true ->
+    rd orc f (MField false false) r = RPrem ->
+    forall st acc, rd orc (S f) (MParts (ClQuote false false false) false false st acc) (lit ++ c_lbrace :: r) = RPrem.
+  Proof.
+    intros Hl Hr Hd E st acc. cbn [rd]. unfold parts_body. cbv zeta. rewrite (scan_plain lit [] r Hl eq_refl Hr). cbn [rev app].
+    unfold finish_chunk. cbn [andb]. destruct (decode orc false (norm_nl false lit)); [|discriminate]. rewrite E. reflexivity.
+  Qed.
+
+  Lemma one_slurp f u : rd orc f MOne (slurp u) = rd orc f MOne u.
+  Proof. destruct f; [reflexivity|]. rewrite !one_eq, try_slurp. reflexivity. Qed.
+  Lemma field_prem_before f rawp tmode u : rd orc f MOne u = RPrem -> rd orc (S f) (MField rawp tmode) u = RPrem.
+  Proof. intros E. cbn [rd]. unfold field_body. cbv zeta. rewrite one_slurp, E. reflexivity. Qed.
+
+  Lemma all_ws_slurp w : all_ws w = true -> slurp w = [].
+  Proof. unfold slurp. induction w as [|c r IH]; simpl; [reflexivity|]. intros H. apply andb_prop in H as [H1 H2]. rewrite H1. auto. Qed.
+  Lemma conv_part_prem rawp tmode dbg st values m ft t : conv_part t = true ->
+    match t with
+    | c :: r => if c =? c_bang then match r with
+                  | c2 :: r2 => field_after orc (rd orc 0) rawp tmode dbg st values m ft (Some c2) r2
+                  | [] => RPrem end
+                else field_after orc (rd orc 0) rawp tmode dbg st values m ft None t
+    | [] => field_after orc (rd orc 0) rawp tmode dbg st values m ft None t
+    end = RPrem.
+  Proof.
+    destruct t as [|c r]; [reflexivity|]. simpl. intros H. apply andb_prop in H as [H1 H2]. rewrite H1.
+    destruct r as [|c2 w]; [reflexivity|]. unfold field_after. rewrite (all_ws_slurp w H2). reflexivity.
+  Qed.
+  (* field_after only calls rec when it sees a colon; the cases above never do, so any rec will do *)
+  Lemma conv_part_prem_rec rec rawp tmode dbg st values m ft t : conv_part t = true ->
+    match t with
+    | c :: r => if c =? c_bang then match r with
+                  | c2 :: r2 => field_after orc rec rawp tmode dbg st values m ft (Some c2) r2
+                  | [] => RPrem end
+                else field_after orc rec rawp tmode dbg st values m ft None t
+    | [] => field_after orc rec rawp tmode dbg st values m ft None t
+    end = RPrem.
+  Proof.
+    destruct t as [|c r]; [reflexivity|]. simpl. intros H. apply andb_prop in H as [H1 H2]. rewrite H1.
+    destruct r as [|c2 w]; [reflexivity|]. unfold field_after. rewrite (all_ws_slurp w H2). reflexivity.
+  Qed.
+  Lemma field_prem_after f rawp tmode u m tl : rd orc f MOne u = ROne m tl -> fhead tl = true ->
+    rd orc (S f) (MField rawp tmode) u = RPrem.
+  Proof.
+    intros E H. cbn [rd]. unfold field_body. cbv zeta. rewrite one_slurp, E. unfold fhead in H. cbv zeta in H.
+    destruct (slurp tl) as [|c r] eqn:Es.
+    - reflexivity.
+    - destruct (c =? c_eq) eqn:Eq.
+      + assert (Hc : conv_part (slurp r) = true).
+        { apply orb_prop in H as [H|H]; [|exact H]. simpl in H. apply andb_prop in H as [H _].
+          apply N.eqb_eq in Eq. subst c. discriminate H. }
+        cbn [List.tl]. apply conv_part_prem_rec. exact Hc.
+      + simpl in H. rewrite orb_false_r in H.
+        exact (conv_part_prem_rec (rd orc f) rawp tmode false (length u) [] m _ (c :: r) H).
+  Qed.
+
   (* the three contexts in which a cut text is read *)
   Definition ctx_one (u : text) : Prop := exists n, rd orc n MOne u = RPrem.
   Definition ctx_seq (u : text) : Prop := forall k acc, exists n, rd orc n (MSeq (Some (seq_close k)) acc) u = RPrem.
@@ -172,6 +270,25 @@ Section TR.
       + destruct w; apply first_not_closer; try reflexivity; destruct k; reflexivity.
       + apply first_not_closer; [reflexivity|destruct k; reflexivity].
       + apply first_not_closer; [reflexivity|destruct k; reflexivity].
+    - (* inside a replacement field, its form not complete *)
+      intros lit pe IH W. cbn [pwf_tail] in W. apply andb_prop in W as [W W4]. apply andb_prop in W as [W W3]. apply andb_prop in W as [W1 W2].
+      apply negb_true_iff in W2. destruct (IH W4) as [[n E] _]. cbn [render_ptail tail_open]. apply open_ctx.
+      + exists (S (S (S n))). apply try_fstring_prem. apply parts_field_prem; auto. apply field_prem_before. exact E.
+      + apply first_not_closer; [reflexivity|destruct k; reflexivity].
+    - (* inside a replacement field, after its form *)
+      intros lit s c tl W. cbn [pwf_tail] in W.
+      apply andb_prop in W as [W W6]. apply andb_prop in W as [W W5]. apply andb_prop in W as [W W4].
+      apply andb_prop in W as [W W3]. apply andb_prop in W as [W1 W2]. apply negb_true_iff in W2.
+      cbn [render_ptail tail_open]. apply open_ctx; [|apply first_not_closer; [reflexivity|destruct k; reflexivity]].
+      destruct (HP c _ W5 tl eq_refl) as [n3 E3].
+      destruct (HR s _ W4 (render c ++ tl)) as [_ S1].
+      { rewrite hd_opt_app. destruct (render c) eqn:Er; [exfalso; exact (render_nonempty orc c _ W5 Er)|reflexivity]. }
+      destruct (S1 _ (one_of_try orc _ _ _ (ex_intro _ n3 E3)) ltac:(discriminate)) as [n2 E2].
+      exists (S (S (S n2))). apply try_fstring_prem.
+      replace (render_sep s ++ render c ++ tl) with ((render_sep s ++ render c) ++ tl) in * by (rewrite <- app_assoc; reflexivity).
+      apply parts_field_prem; auto.
+      { destruct (inner_nonempty orc s c _ tl W5) as (d & q & Ei & Ej). rewrite Ei in W2 |- *. exact W2. }
+      eapply field_prem_after; [|exact W6]. exact E2.
     - (* a complete separator, then the tail *)
       intros s t IH W. cbn [pwf_pend] in W. apply andb_prop in W as [W1 W2]. destruct (IH W2) as [A [B C]].
       cbn [render_pend pend_open]. destruct (HR s _ W1 (render_ptail t) eq_refl) as [S1 S2]. split; [|split].
